@@ -705,7 +705,7 @@ def _run(chk, base):
             chk.cov["samples"].append({"history": h, "variants": [v[0] for v in vs][:12]})
         for k, t, name in viol:
             viol_by_key.setdefault(k, (h, t, name))
-        if time.time() - chk.t0 > (75 if chk.quick else 800):
+        if time.time() - chk.t0 > (75 if chk.quick else 560):
             chk.notes["stopped_early_after_histories"] = dist["histories"]
             break
     if not chk.quick:
@@ -716,7 +716,7 @@ def _run(chk, base):
         t_proc = time.time()
         two = next((h for h in hists if len(h["instances"]) >= 2 and "order" in h), hists[-1])
         for h in [WITNESS, WITNESS_LATE, two]:
-            if time.time() - t_proc > 300:
+            if time.time() - t_proc > 240:
                 break
             nops = len(base_ops(h))
             pick = lambda nm: "+" not in nm and (nm.startswith("crash@") or nm.endswith(":inner") or nm.endswith(":zero"))
@@ -733,7 +733,7 @@ def _run(chk, base):
     for key, (h, text, name) in list(viol_by_key.items())[:5]:
         found = not key.startswith("correspondence")
         proc = name.endswith("/process")
-        small = shrink(h, key, base) if found and not proc and time.time() - chk.t0 < (85 if chk.quick else 850) else h
+        small = shrink(h, key, base) if found and not proc and time.time() - chk.t0 < (85 if chk.quick else 880) else h
         v2 = [v for v in run_history(small, base)[1] if v[0] == key] if not proc else []
         t2, n2 = (v2[0][1], v2[0][2]) if v2 else (text, name)
         chk.add_finding(key if found else "correspondence", t2, {"history": small, "variant": n2, "key": key}, found_input=found)
